@@ -17,8 +17,15 @@ const void* w_heap_lock(void); const void* w_node_lock(size_t); vx_bool w_push(u
 int held_heap; int held_node[VX_HCAP]; int total_held; size_t pending_slot; int pending; int pending_touched;
 void vx_counter_slot(size_t slot, int op) {
     __CPROVER_assert(held_heap, "C11.locks: the item counter is changed only under the heap-size lock");
+#ifdef VX_NONFIT
+    __CPROVER_assert(slot >= 1 && slot < VX_HCAP, "C11.slot_in_array_any_size: the slot handed out by the counter lies inside a heap array whose size is not a power of two");
+#else
     __CPROVER_assert(slot >= 1 && slot < VX_HCAP, "C11.locks: the slot handed out by the counter lies inside the heap array");
+#endif
     pending_slot = slot; pending = 1; pending_touched = (slot < VX_HCAP && held_node[slot]);
+#ifdef VX_NONFIT
+    if (slot >= VX_HCAP) pending = 0;      /* already reported above; the lock hand-over rule is not asked about a slot that does not exist */
+#endif
 }
 void vx_lk(const void* lk, int op) {
     int d = (op == 1) ? 1 : -1;
@@ -57,5 +64,48 @@ void h_push_full(void) {
     for (unsigned i = 0; i < VX_HCAP - 1; ++i) { vx_bool ok = w_push(i, nondet_int()); __CPROVER_assert(ok, "C11.push_full: push succeeds until capacity items are present"); }
     vx_bool ok = w_push(7, nondet_int());
     __CPROVER_assert(!ok && w_count() == VX_HCAP - 1 && total_held == 0, "C11.push_full: push fails exactly when capacity items are present, changes nothing and holds no lock");
+    VX_REACH_GUARD();
+}
+
+/* fill to capacity, then any 4 further operations (push or pop, chosen freely), against a reference multiset: push fails exactly when full,
+   pop returns a highest-priority item that is present, nothing is lost or returned twice. Exercises the sift-down at the edge of the
+   heap array (last slot a left child without a sibling when the array size is odd). */
+#define NI (VX_HCAP + 3)
+void h_mixed(void) {
+    int pr[NI]; int in[NI]; unsigned used = 0;
+    for (unsigned i = 0; i < NI; ++i) { pr[i] = nondet_int(); in[i] = 0; }
+    for (unsigned i = 0; i < VX_HCAP - 1; ++i) { vx_bool ok = w_push(i, pr[i]); __CPROVER_assert(ok, "C11.mixed: push succeeds while fewer than capacity items are present"); in[i] = 1; used++; }
+    for (unsigned step = 0; step < 4; ++step) {
+        unsigned c = 0; for (unsigned i = 0; i < NI; ++i) c += in[i];
+#ifdef VX_FIXED_PATTERN
+        if (step == 1) {            /* quick tier: pop, push, pop, pop on the full queue; the thorough tier chooses freely */
+#else
+        if (nondet_int() & 1) {
+#endif
+            vx_bool ok = w_push(used, pr[used]);
+            __CPROVER_assert((ok != 0) == (c < VX_HCAP - 1), "C11.mixed: push fails exactly when capacity items are present");
+            if (ok) in[used] = 1;
+            used++;
+        } else {
+            int p = 0; int idx = w_pop(&p);
+            if (c == 0) __CPROVER_assert(idx == -1, "C11.mixed: pop on the empty queue returns nothing");
+            else {
+                __CPROVER_assert(idx >= 0 && idx < NI && in[idx < 0 || idx >= NI ? 0 : idx], "C11.mixed: pop returns an item that is in the queue (none lost, none twice)");
+                if (idx >= 0 && idx < NI) {
+                    for (unsigned i = 0; i < NI; ++i) if (in[i]) __CPROVER_assert(pr[idx] >= pr[i], "C11.mixed: pop returns an item of the highest priority present");
+                    __CPROVER_assert(p == pr[idx], "C11.mixed: the item is returned unchanged");
+                    in[idx] = 0;
+                }
+            }
+        }
+        __CPROVER_assert(total_held == 0, "C11.locks: every operation releases every lock it took");
+    }
+    unsigned c = 0; for (unsigned i = 0; i < NI; ++i) c += in[i];
+    __CPROVER_assert(w_count() == c, "C11.mixed: item count equals the reference");
+    VX_REACH_GUARD();
+}
+/* filling a queue whose heap array size is not a power of two (a buffer with Exp2 = false) */
+void h_fill_any_size(void) {
+    for (unsigned i = 0; i < VX_HCAP - 1; ++i) { vx_bool ok = w_push(i, nondet_int()); __CPROVER_assert(ok, "C11.mixed: push succeeds while fewer than capacity items are present"); }
     VX_REACH_GUARD();
 }
